@@ -1117,9 +1117,13 @@ def skymask(invvar, andmask, ormask=None, ngrow=2):
         if ormask.dtype.kind in 'iu' and ormask.dtype.itemsize < 8:
             #
             # A mask narrower than the flag values (int16) cannot be
-            # combined with them in its own type.
+            # combined with them in its own type.  Signed masks are widened
+            # through the unsigned type of the same width, so that a flag
+            # on the sign bit is not extended into the higher bits.
             #
-            ormask = ormask.astype(np.int64)
+            if ormask.dtype.kind == 'i':
+                ormask = ormask.view(ormask.dtype.str.replace('i', 'u'))
+            ormask = ormask.astype(np.uint64)
         badmask = badmask | ((ormask & badskychi) != 0)
         badmask = badmask | ((ormask & redmonster) != 0)
         # badmask = badmask | ((andmask & brightsky) != 0)
